@@ -1457,8 +1457,14 @@ func (client *client) pollInflights() (cont bool, err error) {
 		kept = append(kept, v)
 	}
 	elems = kept
+	// the packet ids stay in use until PUBACK / PUBCOMP is received
 	client.pl.lock()
-	defer client.pl.unlock()
+	for _, v := range elems {
+		client.pl.markUsedLocked(v.MessageWithID.ID())
+	}
+	client.pl.unlock()
+	// The writes block for as long as the peer does not read. The limiter must not be locked meanwhile: a queue that
+	// sacrifices an expired in-flight entry calls back into it, from a delivering goroutine that holds the server's lock.
 	for _, v := range elems {
 		id := v.MessageWithID.ID()
 		switch m := v.MessageWithID.(type) {
@@ -1467,11 +1473,8 @@ func (client *client) pollInflights() (cont bool, err error) {
 			// https://docs.oasis-open.org/mqtt/mqtt/v5.0/os/mqtt-v5.0-os.html#_Subscription_Options
 			// The Server need not use the same set of Subscription Identifiers in the retransmitted PUBLISH packet.
 			m.SubscriptionIdentifier = nil
-			client.pl.markUsedLocked(id)
 			client.write(gmqtt.MessageToPublish(m.Message, client.version))
 		case *queue.Pubrel:
-			// the packet id stays in use until PUBCOMP is received
-			client.pl.markUsedLocked(id)
 			client.write(&packets.Pubrel{PacketID: id})
 		}
 	}
